@@ -344,7 +344,7 @@ def scriptHash (puzzle : Bytes) : Option Bytes :=
 
 /-- `_puzzle_script_for_len20_segwit(witness_program)` -/
 def len20Script (program : Bytes) : Except Sign.Err Bytes :=
-  match VM.compilePushData program with
+  match Script.compilePushData program with
   | .ok p => .ok (segwitV0Len20Prefix ++ p ++ segwitV0Len20Postfix)
   | .error _ => .error .value
 
@@ -360,8 +360,9 @@ def determineConstraints (p2sh : Bytes → Option Bytes) (ctx : VM.TxCtx) (puzzl
       match p2sh h with
       | none => .error .value
       | some u =>
-        match VM.compilePushData u with
-        | .error _ => .error .value
+        -- `tx_context.solution_script = compile_push_data_list([underlying_script])` (`Sign.pushAll`)
+        match pushAll [some u] with
+        | .error e => .error e
         | .ok _ => .ok (some u, VM.witnessProgramVersion u)
     | none => .ok (none, VM.witnessProgramVersion puzzle)
   match pre with
